@@ -330,7 +330,7 @@ int16_t COTmrService(CO_TMR *tmr)
 
     cif = &tmr->Node->If;
     elapsed = COIfTimerUpdate(cif);
-    if (elapsed > 0) {
+    if ((elapsed > 0) && (tmr->Use != 0)) {
         /* get elapsed timer */
         tn       = tmr->Use;                            
         tmr->Use = tn->Next;
